@@ -1180,7 +1180,8 @@ register(Obligation(name="C13.electronic_entropy.float64_finite_nonpositive", pr
 
 class SmearNative:
     """BOUNDED: Occupations.smear with the real get_Efermi / root finder for smearing widths from 1e-3 to 2 Hartree (the root finder must be used for every
-    positive width), one or two spin channels, unequal k-point weights, spectra with gaps and degeneracies: the k-weighted fillings sum to Nelec and lie in [0, 2/Nspin]."""
+    positive width), one or two spin channels, unequal k-point weights, ascending and unordered spectra with degeneracies: the k-weighted fillings sum to Nelec, lie in
+    [0, 2/Nspin] and ARE the Fermi function of each state's own energy at the returned level (hence non-increasing in energy)."""
 
     def problems(self):
         import eminus
@@ -1200,7 +1201,9 @@ class SmearNative:
                     o.wk = wk
                     o.bands = 5
                     o.fill()
-                    eps = np.sort(rng.uniform(-1, 1, (len(wk), Nspin, 5)), axis=-1)
+                    eps = rng.uniform(-1, 1, (len(wk), Nspin, 5))
+                    if (n // 3) % 2 == 0:
+                        eps = np.sort(eps, axis=-1)  # half of the spectra ascending, the others in no particular order: smear() takes any spectrum
                     eps[0, 0, 1] = eps[0, 0, 2]  # a degenerate pair
                     case = dict(smearing=width, Nspin=Nspin, Nelec=Nelec, wk=wk)
                     try:
@@ -1239,3 +1242,93 @@ class SmearNative:
 
 register(Obligation(name="C13.smear.native_real_root_finder", prop=PROP, engine="B", bounded=True, functions=["eminus.occupations:Occupations.smear", "eminus.tools:get_Efermi"],
                     run=SmearNative(), doc="BOUNDED: smear through the real get_Efermi for widths 1e-3..2: weighted fillings sum to Nelec, in [0, 2/Nspin]"))
+
+
+# ------------------------------------------------------------------------------------------------
+# bounded: assignment orders that reach a FILLED object (the symbolic obligations start from an unfilled one)
+# ------------------------------------------------------------------------------------------------
+
+
+class RequestsOnFilledObject:
+    """BOUNDED: spin, magnetisation, charge, scalar filling, bands and smearing requested on an object that is already filled (after fill(), after an earlier
+    request, on the occupations of a built Atoms object): the fillings reproduce the LAST request, sum to Nelec with the k-point weights and lie in [0, 2/Nspin]."""
+
+    def problems(self):
+        import eminus
+        from eminus import Atoms
+        from eminus.occupations import Occupations
+
+        eminus.config.backend = "numpy"
+        eminus.config.verbose = "critical"
+        bad = []
+
+        def mk(Nelec=5, spin=1):
+            o = Occupations()
+            o.Nelec, o.Nspin, o.spin, o.charge = Nelec, 2, spin, 0
+            o.wk = [0.25, 0.75]
+            return o
+
+        def check(o, desc, mag=None, spin=None, Nelec=None):
+            f = np.asarray(o.f)
+            w = np.asarray(o.wk)[:, None, None]
+            tot = float(np.sum(w * f))
+            got_mag = float(np.sum(w * (f[:, 0:1] - f[:, 1:2])) / tot) if tot else 0.0
+            got_spin = float(np.sum(w * (f[:, 0:1] - f[:, 1:2])))
+            p = {}
+            if abs(tot - (o.Nelec if Nelec is None else Nelec)) > 1e-10:
+                p["weighted_sum"] = tot
+            if f.min() < -1e-14 or f.max() > 1 + 1e-14:
+                p["range"] = [float(f.min()), float(f.max())]
+            if mag is not None and abs(got_mag - mag) > 1e-10:
+                p["magnetisation"] = got_mag
+            if spin is not None and abs(got_spin - spin) > 1e-10:
+                p["up_minus_down"] = got_spin
+            if p:
+                bad.append(dict(history=desc, requested=dict(magnetization=mag, spin=spin, Nelec=Nelec), observed=p))
+
+        try:
+            o = mk()
+            o.fill()
+            o.magnetization = 0.6
+            check(o, "Nelec=5, Nspin=2, spin=1; fill(); magnetization = 0.6", mag=0.6)
+            o.magnetization = 0.2
+            check(o, "...; magnetization = 0.6; magnetization = 0.2", mag=0.2)
+            o = mk()
+            o.fill()
+            o.spin = 3
+            o.fill()
+            check(o, "fill(); spin = 3; fill()", spin=3)
+            o = mk()
+            o.fill()
+            o.charge = 1
+            o.fill()
+            check(o, "fill(); charge = 1; fill()", Nelec=4)
+            o = mk(Nelec=4, spin=0)
+            o.fill()
+            o.magnetization = 0.5
+            o.fill()
+            check(o, "Nelec=4, spin=0; fill(); magnetization = 0.5; fill()", mag=0.5)
+            at = Atoms("Li", [0.0, 0.0, 0.0], ecut=2, a=6, unrestricted=True)
+            at.build()
+            at.occ.magnetization = 0.4
+            check(at.occ, "Atoms(Li, unrestricted); build(); occ.magnetization = 0.4", mag=0.4)
+        except Exception as e:  # noqa: BLE001
+            bad.append(dict(raised=f"{type(e).__name__}: {e}"))
+        return bad
+
+    def __call__(self, ob, tier, seed):
+        from pycv.framework import BOUNDED_OK
+
+        bad = self.problems()
+        if bad:
+            return Result(REFUTED, backend="native", witness=bad[0], replayed=True, replay_info=dict(failing=bad[:5]), detail=f"a request on a filled Occupations object is not reproduced: {bad[0]}")
+        return Result(BOUNDED_OK, backend="native", detail="bounded: six assignment orders on filled objects (magnetisation twice, spin, charge, magnetisation on a built Atoms object): fillings reproduce the last request")
+
+    def replay(self, wit):
+        bad = self.problems()
+        return bool(bad), dict(failing=bad[:5])
+
+
+register(Obligation(name="C13.requests_on_filled_object", prop=PROP, engine="B", bounded=True, run=RequestsOnFilledObject(),
+                    functions=["eminus.occupations:Occupations.magnetization", "eminus.occupations:Occupations.spin", "eminus.occupations:Occupations.charge", "eminus.occupations:Occupations.fill"],
+                    doc="BOUNDED: assignment orders that reach an already filled object: the fillings reproduce the last request (magnetisation / spin / charge)"))
